@@ -62,11 +62,17 @@ func VerifC31ArrowTime() {
 // large epochs): for every int64 n, oneTimeValueToMicros(itoa(n), fmt) == intTimeToMicros(n, fmt).
 func VerifC31TimeDispatch() {
 	f := zz.OneOf("format", "epoch_s", "epoch_ms", "epoch_us", "epoch_ns", "")
-	pick := zz.Choice("n", 7)
-	n := []int64{0, -1, 1609459200, 1609459200123456789, -9007199254740993, 9007199254740993, 9223372036854775807}[pick]
+	pick := zz.Choice("n", 8)
+	n := []int64{0, -1, 1609459200, 1609459200123456789, -9007199254740993, 9007199254740993, 9223372036854775807, 1609459200001000999}[pick]
 	got, err := oneTimeValueToMicros(" "+strconv.FormatInt(n, 10)+" ", f)
 	zz.Assert(err == nil, "integer epoch text rejected")
 	zz.Assert(got == intTimeToMicros(n, f), "integer epoch text took a lossy path")
+	// the column path of CSV imports (one conversion per column, not per value)
+	col, cerr := stringsToTimeMicros([]string{strconv.FormatInt(n, 10)}, f)
+	zz.Assert(cerr == nil && len(col) == 1, "integer epoch column rejected")
+	if cerr == nil && len(col) == 1 {
+		zz.Assert(col[0] == intTimeToMicros(n, f), "integer epoch column took a lossy path")
+	}
 	zz.Reach("end")
 }
 
